@@ -35,7 +35,7 @@ type c07Fake struct {
 	emit, keys byte
 	valLen     int
 	segSize    uint64
-	graph      int // 0: stages [m1|s1] [idx|m2|out]; 1: a second store s2 (reads s1) in a stage of its own, out reads s2; 2: as 0 with s1 filtered on idx too; 3: as 0 with an append-policy s1
+	graph      int // 0: stages [m1|s1] [idx|m2|out]; 1: a second store s2 (reads s1) in a stage of its own, out reads s2; 2: as 0 with s1 filtered on idx too; 3: as 0 with an append-policy s1; 4: as 0 with out reading s1 in deltas mode and s1 logging a no-op delete_prefix on blocks without input
 	vals, wals []byte
 }
 
@@ -76,6 +76,9 @@ func (f *c07Fake) ExecuteNewCall(ctx context.Context, call *wasm.Call, cached wa
 	case "m2":
 		call.SetReturnValue([]byte{f.wals[blk%uint64(len(f.wals))]})
 	case "s1":
+		if f.graph == 4 && len(argValues["m1"]) == 0 {
+			call.DoDeletePrefix(1, "zz") // an operation in the log that changes nothing: no delta
+		}
 		if in := argValues["m1"]; len(in) != 0 {
 			if f.graph == 3 {
 				call.DoAppend(1, []string{"k0", "k1"}[blk%2], in)
@@ -89,6 +92,23 @@ func (f *c07Fake) ExecuteNewCall(ctx context.Context, call *wasm.Call, cached wa
 			call.DoSet(1, "c", append(append([]byte{}, v...), in...))
 		}
 	case "out":
+		if f.graph == 4 {
+			// what a module reading the store's deltas sees: their number, and operation, key and new
+			// value of each
+			deltas := &pbsubstreams.StoreDeltas{}
+			if err := proto.Unmarshal(argValues["s1"], deltas); err != nil {
+				return nil, err
+			}
+			out := []byte{byte(len(deltas.StoreDeltas))}
+			for _, d := range deltas.StoreDeltas {
+				out = append(out, byte(d.Operation), byte(len(d.Key)), byte(len(d.NewValue)))
+				out = append(out, d.NewValue...)
+			}
+			out = append(out, byte(len(argValues["m1"])), byte(len(argValues["m2"])))
+			out = append(out, argValues["m1"]...)
+			call.SetReturnValue(append(out, argValues["m2"]...))
+			break
+		}
 		first := "k0"
 		if f.graph == 1 {
 			first = "c"
@@ -225,6 +245,9 @@ func c07Modules(graph int) *pbsubstreams.Modules {
 		}
 	}
 	s1 := store("s1", mapIn("m1"))
+	if graph == 4 {
+		storeIn.Input.(*pbsubstreams.Module_Input_Store_).Store.Mode = pbsubstreams.Module_Input_Store_DELTAS
+	}
 	if graph == 3 {
 		s1.Kind.(*pbsubstreams.Module_KindStore_).KindStore.UpdatePolicy = pbsubstreams.Module_KindStore_UPDATE_POLICY_APPEND
 	}
@@ -232,6 +255,8 @@ func c07Modules(graph int) *pbsubstreams.Modules {
 		// a store filtered on the index: with no matching block in the segment every executor of its
 		// stage may be excluded, and the job ends without streaming a block
 		s1.BlockFilter = &pbsubstreams.Module_BlockFilter{Module: "idx", Query: &pbsubstreams.Module_BlockFilter_QueryString{QueryString: "a"}}
+		// ... and the other module filtered on the same key starts inside the first segment
+		m2.InitialBlock = 1
 	}
 	return &pbsubstreams.Modules{
 		Modules: []*pbsubstreams.Module{
